@@ -157,6 +157,18 @@ func (sw *sessionWants) CancelPending(keys []cid.Cid) {
 	sw.toFetch.gc()
 }
 
+// FilterWanted returns the given CIDs that are still wanted by the session,
+// i.e. that are in the fetch queue or the live wants queue.
+func (sw *sessionWants) FilterWanted(ks []cid.Cid) []cid.Cid {
+	wanted := make([]cid.Cid, 0, len(ks))
+	for _, c := range ks {
+		if sw.isWanted(c) {
+			wanted = append(wanted, c)
+		}
+	}
+	return wanted
+}
+
 // LiveWants returns a list of live wants
 func (sw *sessionWants) LiveWants() []cid.Cid {
 	live := make([]cid.Cid, 0, len(sw.liveWants))
